@@ -50,6 +50,8 @@ def cases(tier, seed):
     m = 12 if tier == "quick" else 160
     for i in range(m):
         yield dict(kind="real", i=i)
+    for i in range(60 if tier == "quick" else 1200):
+        yield dict(kind="exitwith", i=i)
 
 
 class Puller:
@@ -78,13 +80,121 @@ class Puller:
             return None
 
 
+def guard(fn, ctx):
+    """a harness bug in a consumer thread must surface as inconclusive, not vanish with the thread"""
+    def run(*a):
+        try:
+            fn(*a)
+        except BaseException:  # noqa
+            import traceback
+            ctx.inconclusive("harness-exception", traceback.format_exc()[-1500:])
+    return run
+
+
+def run_exit_with(case, ctx):
+    """a generator obtained inside `with Parallel(...) as p` is still alive (run unfinished) when the block is left:
+    calling p again must raise RuntimeError; once the generator is closed / dropped, p must work and be exact"""
+    from joblib import Parallel, delayed
+    from vlib.scripted_backend import ScriptedBackend, Src, Trace
+    rng = harness.rng_for(ctx.seed, ID, "xw", case["i"])
+    J, b = rng.choice([2, 3]), rng.choice([1, 1, 2])
+    mode = rng.choice(["generator", "generator_unordered"])
+    pd = rng.choice(["2*n_jobs", "all", 3])
+    trace = Trace()
+    be = ScriptedBackend(trace=trace)
+    N = rng.choice([6, 9, 14])
+    cfg = dict(J=J, b=b, pd=pd, mode=mode, N=N, scenario="exit-with-block")
+    p = Parallel(n_jobs=J, backend=be, return_as=mode, batch_size=b, pre_dispatch=pd)
+    ctx.evaluated()
+    ctx.count("calls")
+    with warnings.catch_warnings():
+        warnings.simplefilter("ignore")
+        with p:
+            g = p(Src(N, lambda i: delayed(ident)(i, "run1"), trace, widen=0))
+            ncomp = rng.randint(0, 3)
+            got = []
+            for _ in range(ncomp):
+                pend = be.pending_snapshot()
+                if not pend:
+                    break
+                be.complete(pend[0], thread=True, wait=True)
+            # consume what is due in ordered mode: the first completed prefix
+            k = rng.randint(0, 1)
+            for _ in range(k):
+                if len([e for e in trace.snapshot() if e["k"] == "complete"]) > len(got) // max(b, 1):
+                    pl = Puller(g)
+                    pl.start()
+                    r = pl.get(DUE_WAIT)
+                    if r and r[0] == "v":
+                        got.append(r[1])
+                    pl = None
+        unfinished = sum(len(e["items"]) for e in trace.snapshot() if e["k"] == "complete") < N
+        # the block has been left, g is alive
+        try:
+            g2 = p(Src(3, lambda i: delayed(ident)(i, "run2"), trace, widen=0))
+            if unfinished:
+                leftovers = None
+                try:
+                    drain(be)
+                    leftovers = list(g2)
+                except BaseException as e:  # noqa
+                    leftovers = repr(e)
+                ctx.violation("overlapping-call-accepted:after-with-exit",
+                              f"after leaving the with block with the generator of an unfinished run still alive, a new call was accepted instead of raising "
+                              f"RuntimeError; it yielded {str(leftovers)[:160]}; {cfg}", cfg)
+                return
+            ctx.count("overlap_skipped_run_already_complete")
+            drain(be)
+            list(g2)
+        except RuntimeError:
+            ctx.count("overlapping_calls_rejected")
+            ctx.count("overlapping_calls_rejected_after_with_exit")
+        g.close() if rng.random() < 0.5 else None
+        g = None
+        gc.collect()
+        drain(be)
+        # reusable and exact afterwards
+        t0 = time.monotonic()
+        while getattr(p, "_running", False) and time.monotonic() - t0 < 10:
+            time.sleep(0.005)
+        try:
+            g3 = p(Src(4, lambda i: delayed(ident)(i, "run3"), trace, widen=0))
+            drain_thread = threading.Thread(target=lambda: [time.sleep(0.01) or drain(be) for _ in range(200) if True], daemon=True)
+            out = []
+            for _ in range(4):
+                drain(be)
+                pl = Puller(g3)
+                pl.start()
+                for _ in range(50):
+                    r = pl.get(0.1)
+                    if r is not None:
+                        break
+                    drain(be)
+                if r is None or r[0] != "v":
+                    break
+                out.append(r[1])
+            if sorted(out) != [("run3", i) for i in range(4)]:
+                ctx.violation("not-reusable-after-with-exit", f"after the abandoned run the next call delivered {out}; {cfg}", cfg)
+        except BaseException as e:  # noqa
+            ctx.violation("not-reusable-after-with-exit", f"next call raised {type(e).__name__}: {e}; {cfg}", cfg)
+    ctx.sig((cfg, ncomp, k))
+
+
 def run_case(case, ctx):
     if case["kind"] == "real":
         return run_real(case, ctx)
+    if case["kind"] == "exitwith":
+        from vlib.scripted_backend import stacks
+        t = threading.Thread(target=guard(run_exit_with, ctx), args=(case, ctx), daemon=True)
+        t.start()
+        t.join(120)
+        if t.is_alive():
+            ctx.violation("nontermination:consumer-blocked", f"exit-with scenario {case} still blocked after 120 s", dict(stack=stacks().get(t.ident, "")[-1500:]))
+        return
     # the whole sequence runs in one consumer thread (so that dispatch, pulls and close() happen in the same thread,
     # as in user code); this thread only watches it
     from vlib.scripted_backend import stacks
-    t = threading.Thread(target=run_scripted, args=(case, ctx), daemon=True)
+    t = threading.Thread(target=guard(run_scripted, ctx), args=(case, ctx), daemon=True)
     t.start()
     t.join(150)
     if t.is_alive():
